@@ -60,7 +60,7 @@ SCRIPT = textwrap.dedent(
 
 
 def replay(ob=None):
-    p = subprocess.run(["/venv/bin/python", "-c", SCRIPT], env=dict(os.environ, PYTHONPATH=REPO_SRC), capture_output=True, text=True, timeout=900)
+    p = __import__('ujvc.units', fromlist=['run_native_p']).run_native_p(["/venv/bin/python", "-c", SCRIPT], env=dict(os.environ, PYTHONPATH=REPO_SRC), timeout=900)
     return {"reproduced": p.returncode == 1, "detail": p.stdout[-3000:] + p.stderr[-1500:], "script": SCRIPT, "rc": p.returncode}
 
 
